@@ -111,6 +111,11 @@ def monitor_run(rig, res, obs, verdicts, cert_ok):
         fails.append(("c12:exception-left-run", "run() raised %s" % res["run_escaped"]))
     if not res["closed"]:
         fails.append(("c12:connection-not-closed", "run() returned without closing the connection"))
+    last = res["iterations"][-1] if res["iterations"] else None
+    if res["leftover"] and (last is None or last["escaped"] != "ConnectionClosed"):
+        fails.append(("c12:loop-stopped-before-connection-end",
+                      "run() returned although the peer had not closed (last iteration ended with %s)"
+                      % (None if last is None else last["escaped"])))
     for i, o in enumerate(obs):
         if o["k"] != "handled":
             continue
@@ -119,7 +124,9 @@ def monitor_run(rig, res, obs, verdicts, cert_ok):
         entered = len(o["calls"]) > 0
         if o["escaped"] is not None:
             fails.append(("c12:exception-left-message-loop:%s" % o["escaped"],
-                          "frame %d: %s left _handle_message_loop: %s" % (i, o["escaped"], o["escaped_msg"])))
+                          "frame %d (%d responses sent): %s left _handle_message_loop: %s"
+                          % (i, o["n_sent"], o["escaped"], o["escaped_msg"])))
+            continue
         if o["n_sent"] != 1:
             fails.append(("c12:responses-per-frame:%d" % o["n_sent"], "frame %d got %d responses" % (i, o["n_sent"])))
             continue
@@ -145,7 +152,12 @@ def monitor_run(rig, res, obs, verdicts, cert_ok):
         if entered and o["calls"][0]["out"]["k"] == "ok":
             c = o["calls"][0]
             m, L = c["out"]["max"], c["len"]
-            if L is None:
+            if L is None and c.get("write_raised"):
+                # the response could not be encoded: whatever replaced it must be a General Failure error
+                if not S.is_error(ob, "GENERAL_FAILURE"):
+                    fails.append(("c12:unencodable-response-answer", "frame %d: answer to an unencodable response was %s"
+                                  % (i, ob["items"])))
+            elif L is None:
                 fails.append(("c12:engine-response-not-written", "frame %d: the engine's response was never encoded" % i))
             elif m is not None:
                 too_large = S.is_error(ob, "RESPONSE_TOO_LARGE")
@@ -179,7 +191,7 @@ def model_line(rig, events, case, res, obs, verdicts):
             d.pop("msg", None)
             d.pop("exc", None)
             if d["k"] == "ok":
-                d["len"] = c["len"] if c["len"] is not None else 0
+                d["len"] = c["len"]          # None: the session never finished writing it
             outs.append(d)
         if o["obs"] is not None and o["obs"]["items"] and o["obs"]["items"][0]["op"] is None:
             errlen = max(errlen, o["obs"]["len"])
@@ -388,6 +400,15 @@ def gen_cases(rnd, n_streams, n_sweeps):
             case["cert"] = sg.ch([None, {"cns": 1, "eku": "absent"}, {"cns": 2, "eku": "client"}, {"cns": 0, "eku": "client"}])
         elif r < 0.10:
             case["cert"], case["tls"] = {"cns": 1, "eku": "absent"}, False
+        if i % 12 == 5:
+            # a transport that now and then has nothing (recv -> None) or closes early: the ValueError path of
+            # _receive_bytes; compared with the model only (frames get lost by design, no framing monitor)
+            evs, _ = sg.chunking(b"".join(bytes.fromhex(f) for f in case["frames"]), sg.ch(["header", "random"]))
+            for _ in range(sg.ch([1, 1, 2])):
+                evs.insert(rnd.randrange(len(evs) + 1), None)
+            if rnd.random() < 0.3:
+                evs.insert(rnd.randrange(len(evs) + 1), b"")
+            case = {"frames": case["frames"], "labels": case["labels"], "events": [S.hexs(evs)]}
         cases.append(case)
     # maximum response size sweeps: learn the size, then ask for sizes around it
     for i in range(n_sweeps):
@@ -437,8 +458,22 @@ def check_recv(ctx, rig, rnd, n):
         k, b, rest = rig.receive_bytes(size, evs)
         impl.append({"k": k, "bytes": None if b is None else b.hex(), "rest": S.hexs(rest)})
         lines.append(json.dumps({"cmd": "recv", "size": size, "chunks": S.hexs(evs)}))
+    # a failed TLS handshake: no message loop at all, the connection is closed
+    frame = G.encode_request(G.mkreq(12, [{"op": "query", "bid": None, "crypto": None, "functions": [1]}]))
+    hs = rig.run_session([frame], S.make_cert(), handshake_ok=False, digests=False)
+    if hs["iterations"] or hs["out"] or not hs["closed"] or hs["run_escaped"]:
+        ctx.report("c12:served-without-handshake", "requests were served although the TLS handshake failed",
+                   {"kind": "handshake", "frame": frame.hex()})
+    lines.append(json.dumps({"cmd": "run", "tls": True, "cert": S.cert_json({"cns": 1, "eku": "client"}), "plugins": [],
+                             "slugs": [], "handshake": False, "chunks": [frame.hex()],
+                             "parse": [{"frame": frame.hex(), "version": [1, 2]}], "engine": [], "errlen": 200,
+                             "default_version": rig.default_version, "max_response_size": hs["max_response_size"]}))
     outs = ctx.run_model("Session", lines)
+    hs_out = outs.pop()
+    lines.pop()
     div = []
+    if hs_out.startswith("bad-") or json.loads(hs_out)["events"] != []:
+        div.append(("handshake", hs_out))
     for (size, evs), i, o in zip(cases, impl, outs):
         if o.startswith("bad-"):
             div.append((size, evs, i, o))
@@ -457,7 +492,6 @@ def check_recv(ctx, rig, rnd, n):
 # ------------------------------------------------------------------ entry points
 def execute(ctx, cases, rnd, st, with_model=True):
     rig = S.Rig()
-    lines = [] if with_model else None
     try:
         snap = setup_base(rig)
         todo = []
@@ -466,23 +500,30 @@ def execute(ctx, cases, rnd, st, with_model=True):
                 todo += expand_sweep(rig, snap, c)
             else:
                 todo.append(c)
-        for c in todo:
-            for sig, what in run_case(rig, snap, c, random.Random(rnd.randrange(1 << 30)), st, lines):
-                ctx.report(sig, what, {"kind": "session", "case": {k: c[k] for k in c if k in
-                                                                   ("frames", "events", "cert", "tls", "labels")}})
         divs = []
-        if with_model and lines:
-            outs = ctx.run_model("Session", [json.dumps(l[0]) for l in lines])
-            for (line, impl_ev, case), o in zip(lines, outs):
-                if o.startswith("bad-"):
-                    divs.append({"case": case, "model": o, "impl": impl_ev})
-                    continue
-                me = model_events(o)
-                if me != impl_ev:
-                    first = next((i for i, (a, b) in enumerate(zip(me, impl_ev)) if a != b), min(len(me), len(impl_ev)))
-                    divs.append({"case": {k: case[k] for k in case if k in ("frames", "events", "cert", "tls", "labels")},
-                                 "at": first, "model": me[first:first + 1], "impl": impl_ev[first:first + 1]})
-        nrecv, rdiv = check_recv(ctx, rig, rnd, 400 if ctx.tier == "quick" else 20000) if with_model else (0, [])
+        model_s = 0.0
+        BATCH = 250
+        for b0 in range(0, len(todo), BATCH):
+            lines = [] if with_model else None
+            for c in todo[b0:b0 + BATCH]:
+                for sig, what in run_case(rig, snap, c, random.Random(rnd.randrange(1 << 30)), st, lines):
+                    ctx.report(sig, what, {"kind": "session", "case": {k: c[k] for k in c if k in
+                                                                       ("frames", "events", "cert", "tls", "labels")}})
+            if with_model and lines:
+                t0 = time.time()
+                outs = ctx.run_model("Session", [json.dumps(l[0]) for l in lines])
+                model_s += time.time() - t0
+                for (line, impl_ev, case), o in zip(lines, outs):
+                    if o.startswith("bad-"):
+                        divs.append({"case": case, "model": o, "impl": impl_ev})
+                        continue
+                    me = model_events(o)
+                    if me != impl_ev:
+                        first = next((i for i, (a, b) in enumerate(zip(me, impl_ev)) if a != b), min(len(me), len(impl_ev)))
+                        divs.append({"case": {k: case[k] for k in case if k in ("frames", "events", "cert", "tls", "labels")},
+                                     "at": first, "model": me[first:first + 1], "impl": impl_ev[first:first + 1]})
+        ctx.coverage["model_wall_s"] = round(model_s, 2)
+        nrecv, rdiv = check_recv(ctx, rig, rnd, 400 if ctx.tier == "quick" else 4000) if with_model else (0, [])
         return len(todo), divs, nrecv, rdiv
     finally:
         rig.close()
@@ -501,7 +542,7 @@ def run(ctx):
     rnd = random.Random(ctx.seed * 7919 + 12)
     st = Stats()
     quick = ctx.tier == "quick"
-    cases = corpus_cases() + gen_cases(rnd, 330 if quick else 30000, 14 if quick else 300)
+    cases = corpus_cases() + gen_cases(rnd, 330 if quick else 9000, 14 if quick else 300)
     ncases, divs, nrecv, rdiv = execute(ctx, cases, rnd, st)
     ctx.coverage.update({
         "evaluations": st.frames + nrecv,
@@ -516,10 +557,11 @@ def run(ctx):
         "traces_validated_against_impl": st.runs + nrecv,
         "model_divergences": len(divs) + len(rdiv),
     })
-    if (divs or rdiv) and not ctx.violations:
+    if divs or rdiv:
         # a divergence alone is not a violation: look for a failing input around it first
+        n0 = len(ctx.violations)
         search(ctx, ["correspondence"], budget=150)
-        if not ctx.violations:
+        if len(ctx.violations) == n0:
             d = (divs or rdiv)[0]
             ctx.report("correspondence:session-model", "session model and KmipSession disagree",
                        {"kind": "correspondence", "broken": "correspondence Drivers/Session.lean vs KmipSession",
@@ -545,6 +587,9 @@ def replay(ctx, rep):
             k, b, rest = rig.receive_bytes(r["size"], evs)
             flat = b"".join(e for e in evs if e)
             return not (k == "ok" and all(e for e in evs) and b != flat[:r["size"]])
+        if r.get("kind") == "handshake":
+            hs = rig.run_session([bytes.fromhex(r["frame"])], S.make_cert(), handshake_ok=False, digests=False)
+            return not (hs["iterations"] or hs["out"] or not hs["closed"] or hs["run_escaped"])
         if r.get("kind") != "session":
             print("replay: nothing executable in this file (%s)" % r.get("kind"))
             return True
